@@ -314,6 +314,32 @@ def stub(lean, params, rettype):
     return f"def {lean} {sig} : Option ({rettype}) :=\n  let _ := ({', '.join(nm(p) for p, _ in params)})\n  none"
 
 
+HEAD = ("/-! GENERATED by harness/translate_loops.py from /repo's working tree — do not edit. -/\n"
+        "set_option linter.unusedVariables false\nnamespace Skc.GenL\n\n")
+_ELAB = {}  # sha1 of a candidate definition -> does it elaborate (per process; translation units are tiny)
+
+
+def elaborates(txt):
+    """a reading that Lean's elaborator rejects (ill-typed under the annotations, a variable used out of its scope) must
+    not break the build of the driver: such a kernel is reported `unsupported` instead"""
+    import subprocess
+    import tempfile
+
+    key = hashlib.sha1(txt.encode()).hexdigest()
+    if key not in _ELAB:
+        with tempfile.NamedTemporaryFile("w", suffix=".lean", dir=os.path.join(core.LEAN), delete=False) as f:
+            f.write(HEAD + PRELUDE + "\n" + txt + "\n\nend Skc.GenL\n")
+            name = f.name
+        try:
+            r = subprocess.run(["lake", "env", "lean", name], cwd=core.LEAN, capture_output=True, text=True, timeout=300)
+            _ELAB[key] = (r.returncode == 0, (r.stdout + r.stderr)[-300:])
+        except Exception as ex:  # noqa: BLE001
+            _ELAB[key] = (False, f"{type(ex).__name__}")
+        finally:
+            os.remove(name)
+    return _ELAB[key]
+
+
 def generate(repo=None):
     repo = repo or core.REPO
     status, parts = {}, []
@@ -327,16 +353,21 @@ def generate(repo=None):
                 raise Unsupported(f"function {fname} not found")
             seg = ast.get_source_segment(src, fn) or ""
             txt = Fn(lean, fn, types, params, rettype).function()
+            ok, log = elaborates("\n\n".join(parts_ok(parts)) + "\n\n" + txt)
+            if not ok:
+                raise Unsupported("the translation does not elaborate under the type annotations: " + log.replace("\n", " ")[-160:])
             parts.append(f"-- from {path}::{fname}\n" + txt)
             status[key] = {"state": "translated", "source_sha1": hashlib.sha1(seg.encode()).hexdigest()[:12]}
         except (Unsupported, OSError, SyntaxError) as ex:
-            status[key] = {"state": "unsupported", "reason": f"{type(ex).__name__}: {ex}"[:200]}
+            status[key] = {"state": "unsupported", "reason": f"{type(ex).__name__}: {ex}"[:300]}
             parts.append(stub(lean, params, rettype))
     sup = "\n".join(f"def {k}_translated : Bool := {'true' if v['state'] == 'translated' else 'false'}" for k, v in status.items())
-    src = ("/-! GENERATED by harness/translate_loops.py from /repo's working tree — do not edit. -/\n"
-           "set_option linter.unusedVariables false\nnamespace Skc.GenL\n\n" + PRELUDE + "\n" + "\n\n".join(parts) + "\n\n" + sup
-           + "\n\nend Skc.GenL\n")
+    src = HEAD + PRELUDE + "\n" + "\n\n".join(parts) + "\n\n" + sup + "\n\nend Skc.GenL\n"
     return src, status
+
+
+def parts_ok(parts):
+    return list(parts)
 
 
 if __name__ == "__main__":
